@@ -558,6 +558,9 @@ def execute(ctx, case):
                 ctx.count("operations_under_custom_column_names")
                 if r:
                     ctx.violation("custom-column-names", f"{case['op']}: {r}", case)
+                r = G.same_under_ambient(lambda: plain(tree), pick=len(spec["pid"]) + len(case["op"]))
+                if r:
+                    ctx.violation("ambient-state", f"{case['op']}: {r}", case)
     except Exception as e:
         ctx.violation("op-raised", f"{case['op']}: {type(e).__name__}: {str(e)[:300]}", case)
 
